@@ -381,6 +381,10 @@ KNOWN_SCRIPTS = {
 }
 
 
+from common.py2lean_specs import with_translation  # noqa: E402
+
+
+@with_translation
 class C18(Property):
     id = "C18"
     lean_props = ["TIV.C18.Props"]
